@@ -8,7 +8,8 @@ Purpose: find blind spots of the rules.  Every mutant that compiles is classifie
                  (killed-by-tests / survives-tests) and the mutant is listed for triage (equivalent edit or real gap).
 The result is written to .cache/mutation-sweep.json; nothing here is part of a registered check."""
 import sys, os, re, json, shutil, subprocess, argparse
-sys.path.insert(0, '/verif')
+HERE = os.path.dirname(os.path.dirname(os.path.abspath(__file__)))
+sys.path.insert(0, HERE)
 from concurrent.futures import ProcessPoolExecutor
 from sa import mutate, props
 
@@ -44,7 +45,7 @@ def run_tests(m):
         text = open(os.path.join(REPO, m['file'])).read()
         new = text[:m['pos']] + m['new'] + text[m['pos'] + len(m['old']):]
         open(os.path.join(d, m['file']), 'w').write(new)
-        env = dict(os.environ, CARGO_NET_OFFLINE='true', CARGO_TARGET_DIR=os.path.join('/verif/.cache', 'target-muttest-' + str(os.getpid() % 4)))
+        env = dict(os.environ, CARGO_NET_OFFLINE='true', CARGO_TARGET_DIR=os.path.join(HERE, '.cache', 'target-muttest-' + str(os.getpid() % 4)))
         r = subprocess.run(['cargo', 'test', '--offline', '--quiet'], cwd=d, capture_output=True, text=True, env=env, timeout=900)
         return m['id'], ('survives-tests' if r.returncode == 0 else 'killed-by-tests')
     except subprocess.TimeoutExpired:
@@ -57,7 +58,7 @@ def main():
     ap = argparse.ArgumentParser()
     ap.add_argument('--files', nargs='*', default=[])
     ap.add_argument('--limit', type=int, default=0)
-    ap.add_argument('--out', default='/verif/.cache/mutation-sweep.json')
+    ap.add_argument('--out', default=os.path.join(HERE, '.cache', 'mutation-sweep.json'))
     ap.add_argument('--jobs', type=int, default=12)
     ap.add_argument('--no-tests', action='store_true')
     ap.add_argument('--extended', action='store_true', help='the second operator family (statement-level / structural edits)')
